@@ -1392,7 +1392,7 @@ impl<'a> Lowerer<'a> {
             .find_token(node, |kind| matches!(kind, TokenKind::MacroExpand))
             .and_then(|idx| self.tokens.get(idx).map(|t| t.end()))
             .unwrap_or(base_span.end);
-        base_span.start..bang_end
+        base_span.start..bang_end.max(base_span.end)
     }
 
     fn lower_macro_expand(&self, node: GreenNodeId) -> (ExprNodeId, Vec<ExprNodeId>) {
